@@ -1,7 +1,7 @@
 (* Theory/Log.v -- proofs for C25 over Model/Log.v (the view calculation of log). *)
 From Coq Require Import List Arith Bool Lia Permutation.
 From BV Require Import Lib.Dag Theory.DagFacts Lib.DagMergeSort Theory.DagMergeSortFacts
-                       Model.RevSpec Theory.RevSpec Model.Log Theory.LogRbd.
+                       Theory.DagMergeSortMainline Model.RevSpec Theory.RevSpec Model.Log Theory.LogRbd.
 Import ListNotations.
 
 (* the filter of reverse_by_depth on views: an entry needs a revno *)
@@ -353,4 +353,88 @@ Theorem internal_error_leaks :
   revision_id_to_dotted_revno leak_branch (Some 4) = Ok [1; 2; 1] /\
   snd (log_revisions leak_branch (Some 3) (Some 4) false 1 0 false) = Some StartNotLinearAncestor /\
   snd (log_revisions leak_branch (Some 3) (Some 4) false 0 0 false) = Some StartNotInHistory.
+Proof. vm_compute. repeat split. Qed.
+
+(* ---- the linear path and the level filter agree entry by entry ------------------------------ *)
+
+Definition mainline_view (g : dag) (r : revid) : view := ((r, Some [length (lefthand g r)]), 0).
+
+Lemma count_down_lefthand g : wf_dag g = true -> forall t,
+  count_down (length (lefthand g t)) (lefthand g t) = map (mainline_view g) (lefthand g t).
+Proof.
+  intros W t. induction t as [t IH] using lt_wf_ind.
+  destruct (Nat.lt_ge_cases t (length g)) as [L|G].
+  - rewrite (lefthand_unfold g t W L).
+    destruct (parents g t) as [|p ps] eqn:E.
+    + cbn [length count_down map]. unfold mainline_view. rewrite (lefthand_unfold g t W L), E. reflexivity.
+    + cbn [length count_down map]. replace (S (length (lefthand g p)) - 1) with (length (lefthand g p)) by lia.
+      assert (Hp : In p (parents g t)) by (rewrite E; left; reflexivity).
+      destruct (wf_parents g t p W Hp) as [Lt|Gp].
+      * rewrite (IH p Lt). change (mainline_view g t) with ((t, Some [length (lefthand g t)]), 0).
+        rewrite (lefthand_unfold g t W L), E. reflexivity.
+      * rewrite (lefthand_ghost g p Gp). cbn [length count_down map].
+        change (mainline_view g t) with ((t, Some [length (lefthand g t)]), 0).
+        change (mainline_view g p) with ((p, Some [length (lefthand g p)]), 0).
+        rewrite (lefthand_unfold g t W L), E, (lefthand_ghost g p Gp). reflexivity.
+  - rewrite (lefthand_ghost g t G). cbn [length count_down map]. unfold mainline_view.
+    rewrite (lefthand_ghost g t G). reflexivity.
+Qed.
+
+Lemma whole_view_eq (e : ms_entry) (b0 : bool) :
+  whole_view (e, b0) = ((e_id e, Some (e_revno e)), e_depth e).
+Proof. reflexivity. Qed.
+
+Lemma filter_whole_cons g e l :
+  filter (fun v => v_depth v <? 1) (map whole_view (with_eom g (e :: l))) =
+  (if e_depth e =? 0 then [((e_id e, Some (e_revno e)), e_depth e)] else []) ++
+  filter (fun v => v_depth v <? 1) (map whole_view (with_eom g l)).
+Proof.
+  cbn [with_eom map filter]. rewrite whole_view_eq. unfold v_depth at 1. cbn [snd].
+  destruct (e_depth e); reflexivity.
+Qed.
+
+Theorem linear_eq_graph_whole_full b (t : revid) : wf_dag (br_g b) = true -> br_tip b = Some t ->
+  t < length (br_g b) -> lefthand_present (br_g b) t = true ->
+  filter (fun v => v_depth v <? 1) (fst (log_revisions b None None false 0 0 false)) =
+  fst (log_revisions b None None false 1 0 false).
+Proof.
+  intros W T L P. rewrite (log_whole_reverse b t W T L), (log_level1_reverse b t T). cbn [fst].
+  unfold last_revno, lh. rewrite T. cbn [lefthand_opt]. rewrite (count_down_lefthand (br_g b) W t).
+  rewrite <- (depth0_is_lefthand (br_g b) t W L P).
+  pose proof (merge_sorted_shape (br_g b) t W L P) as Sh.
+  pose proof (depth0_is_lefthand (br_g b) t W L P) as D0.
+  unfold merge_sort.
+  assert (G : forall l, (forall e, In e l -> In e (merge_sorted (br_g b) (Some t))) ->
+              (forall e, In e (depth0 l) -> In (e_id e) (lefthand (br_g b) t)) ->
+              filter (fun v => v_depth v <? 1) (map whole_view (with_eom (br_g b) l)) =
+              map (mainline_view (br_g b)) (map e_id (depth0 l))).
+  { induction l as [|e l IH]; intros Hsub Hml; [reflexivity|].
+    rewrite filter_whole_cons. cbn [depth0 filter]. fold (depth0 l).
+    assert (IH' : filter (fun v => v_depth v <? 1) (map whole_view (with_eom (br_g b) l)) =
+                  map (mainline_view (br_g b)) (map e_id (depth0 l))).
+    { apply IH; [intros e' He'; apply Hsub; right; exact He'|].
+      intros e' He'. apply Hml. cbn [depth0 filter]. destruct (e_depth e =? 0); [right|]; exact He'. }
+    rewrite IH'. destruct (e_depth e =? 0) eqn:Ed; [|reflexivity].
+    cbn [app map]. f_equal. apply Nat.eqb_eq in Ed. unfold mainline_view.
+    destruct (Sh e (Hsub e (or_introl eq_refl))) as [[_ Er]|[Hout _]].
+    - rewrite Er, Ed. reflexivity.
+    - exfalso. apply Hout. apply Hml. cbn [depth0 filter]. rewrite (proj2 (Nat.eqb_eq _ _) Ed). left. reflexivity. }
+  apply G; [auto|]. intros e He. rewrite <- D0. apply in_map. exact He.
+Qed.
+
+(* ---- examples: the hypotheses are satisfiable by non-trivial values ------------------------------- *)
+
+Example ex_rbd :
+  wf_depths [(0, 0); (1, 1); (2, 2); (3, 1); (4, 0)] = true /\
+  reverse_by_depth (fun _ : nat => true) [(0, 0); (1, 1); (2, 2); (3, 1); (4, 0)] =
+    [(4, 0); (0, 0); (3, 1); (1, 1); (2, 2)].
+Proof. split; reflexivity. Qed.
+
+(* ex_nested (Theory/RevSpec.v) has a merge of a merge: depths 0, 1 and 2 *)
+Example ex_log_nested :
+  map (fun v => (v_id v, v_depth v)) (fst (log_revisions ex_nested None None false 0 0 false)) =
+    [(8, 0); (7, 0); (6, 1); (5, 2); (4, 1); (3, 1); (2, 0); (1, 0); (0, 0)] /\
+  map v_id (fst (log_revisions ex_nested None None true 0 0 false)) = [0; 1; 2; 7; 3; 4; 6; 5; 8] /\
+  map v_id (fst (calc_view ex_nested (Some 1) (Some 7) false false true false)) = [7; 2; 1] /\
+  lefthand (br_g ex_nested) 7 = [7; 2] ++ 1 :: [0].
 Proof. vm_compute. repeat split. Qed.
